@@ -178,21 +178,48 @@ pub fn describe(frames: &[Frame]) -> Vec<&'static str> {
 /// all free - short reads and writes are ordinary behaviour and are enumerated exhaustively.
 /// Large-frame scenarios (`coarse == true`): transfers of up to 4 bytes (the length prefix) still offer
 /// every size for free; longer ones offer `maxk, 1, maxk/2, maxk-1`, each short one costing one deviation.
-pub fn size_menu(maxk: usize, coarse: bool) -> (Vec<usize>, Vec<u8>) {
+pub fn size_menu(maxk: usize, coarse: bool) -> Menu {
+    let mut m = Menu { n: 0, sizes: [0; 36], costs: [0; 40], total: 0 };
     if maxk == 0 {
-        (vec![0], vec![0])
+        m.n = 1;
     } else if !coarse || maxk <= 4 {
-        ((1..=maxk).rev().collect(), vec![0; maxk])
+        assert!(maxk <= 36, "exhaustive transfer sizes are only offered for transfers of at most 36 bytes");
+        for (i, k) in (1..=maxk).rev().enumerate() {
+            m.sizes[i] = k;
+        }
+        m.n = maxk;
     } else {
-        let mut sizes = vec![maxk];
+        m.sizes[0] = maxk;
+        m.n = 1;
         for k in [1, maxk / 2, maxk - 1] {
-            if !sizes.contains(&k) {
-                sizes.push(k);
+            if !m.sizes[..m.n].contains(&k) {
+                m.sizes[m.n] = k;
+                m.costs[m.n] = 1;
+                m.n += 1;
             }
         }
-        let mut costs = vec![1u8; sizes.len()];
-        costs[0] = 0;
-        (sizes, costs)
+    }
+    m.total = m.n;
+    m
+}
+
+/// The options of one transfer: `sizes[..n]` with their costs, followed by the extra outcomes pushed with `push`.
+pub struct Menu {
+    pub n: usize,
+    pub sizes: [usize; 36],
+    pub costs: [u8; 40],
+    pub total: usize,
+}
+
+impl Menu {
+    /// add one more option (Pending, an error, ..) of the given cost; returns its index
+    pub fn push(&mut self, cost: u8) -> usize {
+        self.costs[self.total] = cost;
+        self.total += 1;
+        self.total - 1
+    }
+    pub fn costs(&self) -> &[u8] {
+        &self.costs[..self.total]
     }
 }
 
